@@ -16,6 +16,17 @@ CHECKS = {
     ),
 }
 
+CHECKS["C01"] = dict(
+    technique="symbolic tensor execution of the real contraction routes (polynomial entries, symbolic exponent) + z3 identity queries (QF_LRA over monomials, QF_NRA cross-check) against a sum-of-products reference",
+    text="Bounded symbolic model checking: every contraction entry point of the real library is executed on networks (<= 4 tensors, dims in {1,2,3}, "
+         "hyper-indices, disconnected parts, scalar tensors, MPS) whose entries and stored exponent are symbols; each returned value is proved equal, "
+         "for all real/complex entry values and all exponents at once, to an independent sum-of-products reference. Counterexamples are replayed "
+         "numerically on the un-stubbed code.",
+    note="Trusted: z3, qv/poly.py normaliser (validated per run by numeric cross-runs of the same harness), cotengra executing the same path on object arrays as on "
+         "float arrays. Abstracted: max-abs factor of exponent stripping = arbitrary positive factor. Outside: rounding, > 4 tensors, slicing, other backends.",
+    design="3/C01",
+)
+
 NA = {}
 
 
